@@ -309,6 +309,8 @@ def oracle_c15(world, result):
     E = len(out["losses"]["val"])
     P["epochs"] = E
     P["cond"] = int(world["cond_cols"] > 0)
+    P["form_multi_dim_rows"] = int(bool(world.get("x_tail") or world.get("cond_tail")))
+    P["form_non_float32_data"] = int(bool(world.get("data_dtype")))
     P["batch_1"] = int(bs == 1)
     P["batch_gt_n"] = int(bs > n)
 
